@@ -129,6 +129,13 @@ def run(ctx):
             ref_d = digests(ref_ds)
             path = os.path.join(base, cfg0.to_fname() + ".zanj")
             request(c04_child.make_cfg(spec), base)
+        if not os.path.exists(path):
+            # the very first request (file missing) must leave a loadable file under the requested name
+            ctx.ev(); ctx.tally("c11:F0")
+            ctx.violation("C11/F0/no-file-left-behind", f"after the first request for this configuration there is no {os.path.basename(path)} in the cache directory; "
+                          f"it contains {sorted(os.listdir(base))}", dict(spec=spec["key"], fault="F0", note="first request of the run"))
+            shutil.rmtree(base, ignore_errors=True)
+            continue
         with open(path, "rb") as f:
             good = f.read()
         L = len(good)
